@@ -2,6 +2,7 @@ CONSTANTS Pkgs <- P2
  Order <- O2
  Gens <- GensAB
  Dep <- NoDep2
+ Closure <- MCClosure
  Under <- UnderRoot2
  RootPkg = "p"
  HashCoversSum = TRUE
